@@ -73,6 +73,7 @@ def shards(tier, seed):
         for first in firsts:
             out.append(dict(name="match_w%d/%s" % (10 * scale, "-".join(first)), kind="match", pal=pal, K=4, first=first, scale=scale, reduced=True,
                             weight=4 ** 4 * 30))
+    out.append(dict(name="megabase", kind="mega", weight=3000))
     out.append(dict(name="sched", kind="sched", weight=2000))
     return out
 
@@ -301,7 +302,15 @@ def run_match(rec, sh, tier, seed):
                 for k in ks:
                     width, mnp, use_bw, ow, beta = cfgs[k]
                     loci = pandas.DataFrame(list(lset), columns=["chrom", "start", "end"])
-                    for rs in ((seed,) if sh.get("reduced") else (0, 1 + seed)):
+                    # the caller's frame may carry any index (filtered / concatenated / sorted frames): only the row order matters
+                    st_ = (gi + li) % 4
+                    if st_ == 1:
+                        loci.index = list(range(len(loci) - 1, -1, -1))
+                    elif st_ == 2:
+                        loci.index = [0] * len(loci)
+                    elif st_ == 3:
+                        loci.index = ["row%d" % ((5 * i + 2) % 7) for i in range(len(loci))]
+                    for rs in ((seed,) if (sh.get("reduced") or tier == "quick") else (0, 1 + seed)):
                         case = dict(fn="extract_matching_loci", tiles=tiles, tail=tail, loci=[list(x) for x in lset], gc_bin_width=width, max_n_perc=mnp,
                                     bigwig=use_bw, out_window=ow, signal_beta=beta, random_state=rs)
                         kw = dict(in_window=W, out_window=ow, max_n_perc=mnp, gc_bin_width=width, bigwig=bw if use_bw else None,
@@ -319,7 +328,7 @@ def run_match(rec, sh, tier, seed):
                         rec.case(1, int(bool(n)))
                         if n:
                             n_ret += n
-                        if n is not None and rs == 0 and not sh.get("reduced"):
+                        if n is not None and rs in (0, seed) and not sh.get("reduced") and (li % 3 == 0 or tier != "quick"):
                             st2, df2 = call(extract_matching_loci, loci, fa, **kw)
                             if st2 != "ok" or not df.equals(df2):
                                 rec.violation("match:not_deterministic", case)
@@ -435,6 +444,63 @@ def run_sched(rec, tier, seed):
             pass
 
 
+def run_mega(rec, tier, seed):
+    """A chromosome longer than 2**20 bases with in_window = 50 and 130 (neither divides 2**20): tiles beyond the first megabase must
+    still be judged by their own sequence."""
+    import pandas
+    from tangermeme.match import extract_matching_loci
+    d = env.scratch_dir("c17mega")
+    try:
+        for w in (50, 130):
+            ntiles = (1 << 20) // w + 600
+            kinds = ["g5", "g0", "g10", "n2", "g5", "q5", "n6", "g2", "g8"]
+            rs = numpy.random.RandomState(7 + seed)
+            seq_parts, sig_parts = [], []
+            tile_kind = []
+            for t in range(ntiles):
+                k = kinds[int(rs.randint(0, len(kinds)))] if t > (1 << 20) // w - 50 else kinds[t % 5]
+                tile_kind.append(k)
+                base = TILES[k]
+                seq_parts.append((base * (w // 10 + 1))[:w] if w % 10 else base * (w // 10))
+            s = "".join(seq_parts) + "ACGTACG"
+            fa = os.path.join(d, "mega%d.fa" % w)
+            with open(fa, "w") as fh:
+                fh.write(">cM\n")
+                for i in range(0, len(s), 80):
+                    fh.write(s[i:i + 80] + "\n")
+                fh.write(">cS\n" + "ACGTTGCAAC" * 40 + "\n")
+            seqs = {"cM": s.upper(), "cS": ("ACGTTGCAAC" * 40)}
+            # inputs beyond the first megabase (so that the matched background is drawn there too) plus one on the small chromosome
+            t0 = (1 << 20) // w + 20
+            lset = [("cM", (t0 + 3 * j) * w + 5, (t0 + 3 * j) * w + w - 5) for j in range(60)] + [("cS", 100, 150)]
+            loci = pandas.DataFrame(lset, columns=["chrom", "start", "end"])
+            for rsd in (seed, seed + 1):
+                case = dict(fn="extract_matching_loci", genome="megabase pattern", in_window=w, n_loci=len(lset), random_state=rsd)
+                st, df = call(extract_matching_loci, loci, fa, in_window=w, out_window=w, max_n_perc=0.1, gc_bin_width=0.1, random_state=rsd, n_jobs=1)
+                rec.case(1, 1)
+                if st != "ok":
+                    rec.violation("match:raises:megabase", case, observed=df)
+                    continue
+                # every returned tile judged by its OWN sequence
+                bad = None
+                for (c, a_, b_) in df.itertuples(index=False):
+                    tile = seqs[c][a_:b_]
+                    if a_ % w or b_ != a_ + w or b_ > len(seqs[c]) or tile.count("N") / w > 0.1:
+                        bad = (c, int(a_), int(b_), tile.count("N") / w)
+                        break
+                if bad:
+                    rec.violation("match:row_invalid:megabase", dict(case, row=list(bad)), msg="returned tile is misaligned or exceeds max_n_perc")
+                    continue
+                n_beyond = int(sum(1 for (c, a_, b_) in df.itertuples(index=False) if c == "cM" and a_ >= (1 << 20)))
+                rec.count("megabase_rows_beyond_2^20", n_beyond)
+                check_result(rec, case, df, seqs, {k: numpy.zeros(len(v)) for k, v in seqs.items()}, lset, ["cM", "cS"], w, w, 0.1, 0.1, False, 1.0)
+                rec.observe(w, rsd, len(df))
+            os.remove(fa)
+        rec.sample(dict(kind="megabase", in_windows=[50, 130], chromosome_length=">2**20", inputs=61))
+    finally:
+        shutil.rmtree(d, ignore_errors=True)
+
+
 def run_shard(sh, tier, seed):
     global W, TILES
     if sh.get("scale"):
@@ -443,6 +509,8 @@ def run_shard(sh, tier, seed):
     rec = Recorder(PID, sh["name"])
     if sh["kind"] == "chrom":
         run_chrom(rec, sh, tier, seed)
+    elif sh["kind"] == "mega":
+        run_mega(rec, tier, seed)
     elif sh["kind"] == "match":
         run_match(rec, sh, tier, seed)
     else:
